@@ -171,6 +171,7 @@ func VerifC44_query() {
 	verifAssert(opt.Sentinel.MasterSet == val["master_set"], "master_set sets the sentinel master set")
 	if tls {
 		verifAssert(opt.TLSConfig != nil && opt.TLSConfig.InsecureSkipVerify == wantSkip, "skip_verify sets InsecureSkipVerify on TLS URLs")
+		verifAssert(opt.TLSConfig != nil && opt.TLSConfig.ServerName == "h", "the TLS server name is the URL's own host, whatever other parameters say")
 	} else {
 		verifAssert(opt.TLSConfig == nil, "no TLS configuration for plain schemes")
 	}
@@ -270,6 +271,10 @@ func VerifC44_structure() {
 		verifAssert(opt.InitAddress[0] == want, "address is host:port with localhost and 6379 as defaults")
 		tls := scheme == "rediss" || scheme == "valkeys"
 		verifAssert((opt.TLSConfig != nil) == tls, "TLS exactly for the s-schemes")
+		if tls {
+			wantSN := []string{"localhost", "h", "h", "::1"}[hostKind]
+			verifAssert(opt.TLSConfig.ServerName == wantSN, "the TLS server name is the URL's host")
+		}
 	}
 	verifAssert(opt.Dialer.Timeout == 0 && opt.ConnWriteTimeout == 0 && !opt.AlwaysRESP2 && !opt.DisableCache && !opt.DisableRetry && opt.ClientName == "" && opt.Sentinel.MasterSet == "", "absent parameters leave their options untouched")
 	verifReach("structure")
